@@ -254,6 +254,45 @@ func runCompiled(c *C16Case, rec *bufio.Writer, tmp string, idx int) (res Result
 		}
 	}
 
+	// E. two revisions of one name with the same time stamp and sources of the same length (they differ in one byte of
+	// literal text): each compiled form renders like ITS source, on a fresh engine and on the engine that loaded the other
+	// revision before -- whatever compiled templates this process has loaded earlier
+	{
+		revs := [2]string{"<A>" + src, "<B>" + src}
+		var eShared *twig.Engine
+		for k, rsrc := range revs {
+			eS := twig.New()
+			eS.RegisterString(helperName, helper)
+			if err := eS.RegisterString(name, rsrc); err != nil {
+				break // (a source that does not parse: nothing to compare)
+			}
+			outS, errS := eS.Render(name, ctx)
+			rd, err := twig.SerializeCompiledTemplate(&twig.CompiledTemplate{Name: name, Source: rsrc, LastModified: lm, CompileTime: 1})
+			if err != nil {
+				fail("serialize-revision", err.Error(), "")
+				break
+			}
+			eF := twig.New()
+			eF.RegisterString(helperName, helper)
+			if eShared == nil {
+				eShared = twig.New()
+				eShared.RegisterString(helperName, helper)
+			}
+			for what, e := range map[string]*twig.Engine{"fresh-engine": eF, "same-engine": eShared} {
+				if err := e.LoadFromCompiledData(rd); err != nil {
+					fail("load-revision", err.Error(), "")
+					continue
+				}
+				outR, errR := e.Render(name, ctx)
+				if (errR == nil) != (errS == nil) {
+					fail(fmt.Sprintf("revision-%d-%s-error", k, what), fmt.Sprint(errR), fmt.Sprint(errS))
+				} else if errS == nil && outR != outS {
+					fail(fmt.Sprintf("revision-%d-%s-output", k, what), outR, outS)
+				}
+			}
+		}
+	}
+
 	// the bytes handed out earlier must not change when something else is serialised later
 	if prevData != nil {
 		pb, err := twig.DeserializeCompiledTemplate(prevData)
